@@ -97,7 +97,17 @@ func c04handlerResult(r *rng.R) hres {
 	payload := []byte(hostileString(r))
 	text := hostileString(r)
 	raw := func(t proto.MessageType, b []byte) *redis.Message { return proto.NewMessageWithType(t).SetBytes(b) }
-	switch r.Intn(14) {
+	switch r.Intn(16) {
+	case 14:
+		return hres{fmt.Sprintf("message of an unknown type %q", payload), func() (*redis.Message, error) { return raw(proto.MessageType(9), payload), nil }}
+	case 15:
+		return hres{fmt.Sprintf("array holding a message of an unknown type %q", payload), func() (*redis.Message, error) {
+			m := redis.NewArrayMessage()
+			m.Append(raw(proto.BulkMessage, payload))
+			m.Append(raw(proto.MessageType(9), payload))
+			m.Append(raw(proto.BulkMessage, payload))
+			return m, nil
+		}}
 	case 0:
 		return hres{fmt.Sprintf("status %q", payload), func() (*redis.Message, error) { return raw(proto.StringMessage, payload), nil }}
 	case 1:
@@ -405,7 +415,7 @@ func init() {
 	run.Register(&run.Prop{
 		ID: "C04", Level: "exploration",
 		Rule: func(tier string) string {
-			return "case = one scripted connection, requests delivered one per chunk, in three rotating kinds: (toplevel) 1..5 client values of every RESP type at top level - status, error, integer, bulk, null bulk, empty/null array, null/non-bulk/nested command names - and command arrays whose name and arguments carry CR, LF, CRLF+forged frames and arbitrary bytes; (handler-result) a command whose handler call returns each message type with hostile payload, nil message, errors with hostile text, message+error, arrays with status/error elements, nested arrays, an array message built without an array; (example-store) hostile values written to the bundled example store and read back with every read command. Oracle: the whole output decodes under an independent strict RESP2 decoder with nothing left over; the bytes written between two consecutive would-block reads are exactly one frame (or none and the connection is closed); a trailing ECHO is answered exactly; whole-stream delivery gives byte-identical output; in a further run the reader stalls inside a seeded reply write for longer than any write deadline and then reads on (virtual time: the scripted transport cuts that write short iff the server armed a deadline) and what the client reads must still be complete frames. distinct = hash of request stream + handler script; all cases are non-trivial (hostile bytes or non-command values)"
+			return "case = one scripted connection, requests delivered one per chunk, in three rotating kinds: (toplevel) 1..5 client values of every RESP type at top level - status, error, integer, bulk, null bulk, empty/null array, null/non-bulk/nested command names - and command arrays whose name and arguments carry CR, LF, CRLF+forged frames and arbitrary bytes; (handler-result) a command whose handler call returns each message type with hostile payload, nil message, errors with hostile text, message+error, arrays with status/error elements, nested arrays, an array message built without an array, a message whose type is none of the five (alone and inside an array); (example-store) hostile values written to the bundled example store and read back with every read command. Oracle: the whole output decodes under an independent strict RESP2 decoder with nothing left over; the bytes written between two consecutive would-block reads are exactly one frame (or none and the connection is closed); a trailing ECHO is answered exactly; whole-stream delivery gives byte-identical output; in a further run the reader stalls inside a seeded reply write for longer than any write deadline and then reads on (virtual time: the scripted transport cuts that write short iff the server armed a deadline) and what the client reads must still be complete frames. distinct = hash of request stream + handler script; all cases are non-trivial (hostile bytes or non-command values)"
 		},
 		Assumptions: []string{"integer frames are judged on framing only (a handler may put any CR/LF-free text into an integer message)"},
 		Setup: func(tier string, seed uint64) int {
